@@ -306,7 +306,9 @@ def run(repo, tier):
             for a in files:
                 if a in allowed or (const_ok and a[0] == 'c' and a[1] == 'str'):
                     continue
-                if a[0] in ('str', 'c'):
+                if a[0] == 'str' and a[2] is None:
+                    undecided.append('{}:{} where the file name of this Line comes from is not established'.format(q, node.lineno))
+                elif a[0] in ('str', 'c'):
                     wrong = wrong or 'the file recorded is not the path that was opened to read this source'
                 else:
                     undecided.append('{}:{} the file of this Line is not understood'.format(q, node.lineno))
